@@ -12,13 +12,13 @@ open GoSSE.Model.Joe GoSSE.Proofs.Joe
 
 /-- Joe's goroutine never panics (close of a closed channel, send on a closed channel) and never
 blocks forever on a subscriber's channel — in every reachable state. -/
-theorem never_panics {s : St} (h : Reachable s) : s.joe ≠ .panicked ∧ s.joe ≠ .blocked :=
+theorem never_panics {c : Cfg} {s : St} (h : Reachable c s) : s.joe ≠ .panicked ∧ s.joe ≠ .blocked :=
   (reachable_inv h).ok
 
 /-- Once a `Subscribe` call has returned, no transition whatsoever makes another call on its
 `MessageWriter`, and the call stays returned with the same result. -/
-theorem untouched_after_return {s s' : St} (h : Reachable s) (i : SubId) (r : Option Err)
-    (hr : (s.subs i).pc = .returned r) (l : Label) (hs : step s l = some s') :
+theorem untouched_after_return {c : Cfg} {s s' : St} (h : Reachable c s) (i : SubId) (r : Option Err)
+    (hr : (s.subs i).pc = .returned r) (l : Label) (hs : step c s l = some s') :
     (s'.subs i).calls = (s.subs i).calls ∧ (s'.subs i).pc = .returned r := by
   have hinv := reachable_inv h
   -- a returned subscription is not in a fan-out's to-do list
